@@ -146,14 +146,9 @@ func (c *channel) cancelPendingMsgs(gen uint64) {
 			continue
 		}
 		routers = append(routers, router)
-		// delete the router if we are only expecting a single reply message
-		if !router.streaming {
-			delete(c.responseRouters, msgID)
-		} else {
-			// report every broken stream only once
-			router.gen = 0
-			c.responseRouters[msgID] = router
-		}
+		// the error is the node's last word for this call (also for a call that
+		// expects a stream of responses: they were to arrive on the stream that is gone)
+		delete(c.responseRouters, msgID)
 	}
 	c.responseMut.Unlock()
 	for _, router := range routers {
@@ -179,8 +174,9 @@ func (c *channel) routeReply(msg *Message) {
 func (c *channel) routeResponse(msgID uint64, resp response) {
 	c.responseMut.Lock()
 	router, ok := c.responseRouters[msgID]
-	// delete the router if we are only expecting a single reply message
-	if ok && !router.streaming {
+	// delete the router if we are only expecting a single reply message,
+	// or if this is an error: a node reports at most one error per call
+	if ok && (!router.streaming || resp.err != nil) {
 		delete(c.responseRouters, msgID)
 	}
 	c.responseMut.Unlock()
